@@ -91,6 +91,10 @@ Definition glue_C01 (k : string) (a o : list value) : option verdict :=
                       if mode =? 0 then forallb (fun e => match e with EDrift x r => C01_drift_ok dval x r | _ => true end) es
                       else true in
                     Some (functional expected o (C01_ok cfg nr np rs (negb (opan =? 0), es) && drift_ok))
+                (* an observation that is not a sequence of Do / Sleep / Drift events (the harness writes [3 _] for
+                   any other call of the clock, which Run never makes): the oracle cannot be evaluated and is left
+                   true; the model comparison fails (the expected sequence has only kinds 0, 1, 2), so the case is
+                   reported as broken correspondence, not silently accepted *)
                 | None => Some (functional expected o true)
                 end
             | _ => Some (functional expected o true)
